@@ -217,9 +217,30 @@ package regclient
 // transfer goes through the once-per-digest gate: BlobCopy is called only while holding the
 // callback that imageSeenOrWait hands to exactly one task per (target repository, digest) key.
 //@ ghost $gateHeld bool
+// The gate itself (verified, no longer trusted): every access to the table opt.seen happens under
+// opt.mu; an entry is inserted only for the very key that the same critical section found absent;
+// the callback is handed out exactly by the invocation that inserted the entry (nobody else can
+// then insert one for the key until the callback removed it after a failure), every other
+// invocation returns no callback.
+//@ ghost $seenInserted bool
 //@ func imageSeenOrWait(ctx, opt, repo, tag, dig, parents) (cb, err)
-//@   trusted ghost bookkeeping only
+//@   prop C14
 //@   effect $gateHeld = (cb != nil)
+//@   entry-assume !$seenInserted
+//@   on-call mapupdate:seen: $seenInserted = true
+//@   ensures callback-iff-this-call-inserted-the-entry: (cb != nil) == $seenInserted
+//@   ensures callback-means-no-error: cb != nil ==> err == nil
+//@ mapaccess map[string]*~.imageSeen
+//@   prop C14
+//@   name opt.seen
+//@   in ~
+//@   requires under-the-lock: $held(imageOpt.mu)
+//@ mapaccess map[string]*~.imageSeen
+//@   prop C14
+//@   name opt.seen/gate
+//@   in ~
+//@   infunc imageSeenOrWait$
+//@   requires inserts-only-the-key-found-absent: update ==> k == caller.key && caller.seen == nil
 //@ callsite (*RegClient).BlobCopy(ctx, refSrc, refTgt, d, opts)
 //@   prop C14
 //@   name BlobCopy/image-copy
